@@ -75,6 +75,11 @@ CLAIMED = {
    note="Trusted: pipe driver (banner and farewell stripped, stdout and stderr compared separately), format!/error Display as the printed forms. Sessions are kept small (forms <= 160 characters) because the trace specification re-lexes the pending text at every line. Unterminated strings/|identifiers| at a line break are outside the claim.",
    technique="TLA+ REPL state machine over the reader specification, TLC law checking, TLC trace validation of the hook sweep and of binary sessions",
    ref="DESIGN.md section 5, C18"),
+ "C17": dict(
+   text="Cli.tla states the driver's contract: standard output, exit status and the single diagnostic FILE[:LINE:COL] MESSAGE as functions of the per-form outcomes. TLC runs every program of Programs!CliFamily (<= 4 forms: display, newline, definition, use of a possibly undefined variable, a fault after output) on Machine.tla with stop-at-first-failure and checks CliLaw; each is written as a file (LF/CRLF, with/without final newline) and run through the built binary from another working directory, and CliTrace.tla checks the process observables against the machine's outcomes. Missing, directory and non-UTF-8 files must give a diagnostic naming the file and a non-zero status. Random displaying programs (with an optional injected fault, multi-line layout, a library file next to the program) are compared by CliTrace.tla with the same forms evaluated one by one through the library interface with captured output.",
+   note="Trusted: process driver (ANSI stripped, exit compared as zero/non-zero), fd-1 capture in the harness. LINE:COL values are checked for presence and shape only (C15 owns them).",
+   technique="TLA+ CLI contract + abstract machine, TLC exhaustive small programs, TLC trace validation of binary runs",
+   ref="DESIGN.md section 5, C17"),
 }
 PENDING_REASON = "no check is registered for this property yet: the specification module and binding for it are still being built (see DESIGN.md section 10); nothing is claimed"
 
